@@ -130,7 +130,7 @@ def callout_walk_loops(I):
     return out
 
 
-ZERO_LEN_OK = (0x4548, 0x4D54, 0x4C50)
+ZERO_LEN_OK = (0x4548, 0x4D54, 0x4C50, 0x5053)     # EH, MT, LP and the callouts of an SRC (empty location code)
 
 
 def zero_length_reads(rep, I, where, rule):
